@@ -382,6 +382,61 @@ Section Oracle.
     if checked_err (check_files sorted) then None
     else add_files (valid_files sorted).
 
+  Fixpoint is_path_prefix_str (a b : list str) : bool :=
+    match a, b with
+    | [], _ => true
+    | x :: a', y :: b' => str_eqb x y && is_path_prefix_str a' b'
+    | _ :: _, [] => false
+    end.
+
+  (* ------------------------------------------------------------ CheckDir / CreateFromDir *)
+  (* A directory tree is given by its leaves (regular files, symlinks, other irregular files and
+     explicitly listed - possibly empty - directories), named by clean relative slash paths.
+     listFilesInDir: filepath.WalkDir visits every directory's entries in byte order of their
+     names; entries under cue.mod/vendor/ are omitted one by one; a directory (other than the root)
+     named .bzr/.git/.hg/.svn or containing an entry called cue.mod is skipped with everything
+     below it; irregular files are omitted. *)
+  Definition vcs_names : list str := map lit [".bzr"; ".git"; ".hg"; ".svn"]%string.
+
+  Fixpoint dir_prefixes (es : list str) : list (list str) :=      (* non-empty proper prefixes *)
+    match es with
+    | [] => []
+    | e :: r => match r with [] => [] | _ => [e] :: map (cons e) (dir_prefixes r) end
+    end.
+
+  Definition dir_skipped (tree : list file) (d : list str) : bool :=
+    negb (is_vendored (join_slash d)) &&
+    (mem_str (last d []) vcs_names
+     || existsb (fun g => is_path_prefix_str (d ++ [s_cue_mod]) (split_slash (f_name g))) tree).
+
+  Definition listed (tree : list file) (f : file) : bool :=
+    match f_kind f with
+    | KRegular =>
+      negb (is_vendored (f_name f)) &&
+      negb (existsb (dir_skipped tree) (dir_prefixes (split_slash (f_name f))))
+    | _ => false
+    end.
+
+  (* element-wise byte order = the order in which WalkDir reaches the files *)
+  Fixpoint elems_leb (a b : list str) : bool :=
+    match a, b with
+    | [], _ => true
+    | _ :: _, [] => false
+    | x :: a', y :: b' => if str_eqb x y then elems_leb a' b' else str_leb x y
+    end.
+
+  Fixpoint insert_walk (f : file) (l : list file) : list file :=
+    match l with
+    | [] => [f]
+    | g :: r => if elems_leb (split_slash (f_name f)) (split_slash (f_name g)) then f :: l else g :: insert_walk f r
+    end.
+
+  Definition list_files_in_dir (tree : list file) : list file :=
+    fold_right insert_walk [] (filter (listed tree) tree).
+
+  Definition check_dir (tree : list file) : checked := check_files (list_files_in_dir tree).
+  Definition create_from_dir (tree : list file) : option (list entry) := create (list_files_in_dir tree).
+
   (* ------------------------------------------------------------ file system + Unzip *)
   Inductive node := NFile (content : str) | NDir.
   Definition fpath := list str.                (* absolute path as its list of elements *)
